@@ -265,6 +265,22 @@ def writeCogFrom (k0 : Nat) (a : WArgs) : Trace :=
 
 def writeCog (a : WArgs) : Trace := writeCogFrom 0 a
 
+/-- `_write_cog` handed a `GCPGeoBox` (what `.odc.geobox` is for an array registered by ground control points): the class has
+`shape` and `crs` but NO `transform` attribute.  Everything up to the construction of `rio_opts` happens as usual — layout test,
+default levels, the overwrite guard (an existing destination may be REMOVED), the resampling check, the block-size warning —
+then `"transform": geobox.transform` raises `AttributeError`; GDAL is never called (no gcps are handed over either). -/
+def writeCogGcp (a : WArgs) : Trace :=
+  match layoutOf a.shape a.g with
+  | .error e => ([], .error e)
+  | .ok _ =>
+    let guard : List Ev × Bool := match a.dst with
+      | .mem => ([], false)
+      | .path p ex => if ex then (if a.overwrite then ([.unlink p], false) else ([], true)) else ([], false)
+    if guard.2 then ([], .error .osError) else
+    match resamplingS2rio (a.resampling.getD "nearest") with
+    | none => (guard.1, .error .valueError)
+    | some _ => (guard.1 ++ (if a.blocksize.getD 512 % 16 != 0 then [.warnBlock] else []), .error .attributeError)
+
 /-! ### `_memfiles_ovr`, `write_cog_layers` -/
 
 /-- `tt.split("-", 1)` then `fname + ".tif"` -/
@@ -360,6 +376,60 @@ def writeCogLayersWith (repaired : Bool) (a : LArgs) : Trace :=
 
 /-- `write_cog_layers` as it is on HEAD -/
 def writeCogLayers (a : LArgs) : Trace := writeCogLayersWith true a
+
+/-! ### `intermediate_compression` dicts that carry NAMED parameters of `_write_cog`
+
+`first_pass_cfg` is spread into the call `_write_cog(img.data, gbox, name, overview_levels=[], **first_pass_cfg)`: besides
+`blocksize` / `nodata` / `use_windowed_writes` (handled by `layerArgs`) the keys `overwrite`, `ovr_blocksize` and
+`overview_resampling` also bind to parameters instead of becoming creation options.  (`overview_levels`, `pix`, `geobox`, `fname`
+would be a duplicate keyword: `TypeError`, pinned by the harness, outside the model.) -/
+
+/-- the named parameters beyond `layerArgs` -/
+def namedFirstPassKeys : List String := ["overwrite", "ovr_blocksize", "overview_resampling"]
+
+def layerArgsFull (cfg : Dict) (ly : Layer) (name : String) : WArgs :=
+  let base := layerArgs cfg ly name
+  { base with
+    overwrite := cfg.getNone "overwrite" = .bool true,
+    ovrBlocksize := match cfg.get "ovr_blocksize" with | some (.int b) => some b.toNat | _ => none,
+    resampling := match cfg.get "overview_resampling" with | some (.str r) => some r | _ => none,
+    extra := base.extra.without namedFirstPassKeys }
+
+def layerLoopFull (cfg : Dict) : List (Layer × String) → Trace
+  | [] => ([], .ok .none)
+  | (ly, name) :: rest =>
+    match writeCogFrom 0 (layerArgsFull cfg ly name) with
+    | (evs, .error e) => (evs, .error e)
+    | (evs, .ok _) =>
+      let (evs', r) := layerLoopFull cfg rest
+      (evs ++ evs', r)
+
+/-- `write_cog_layers` with the full keyword binding of the first pass -/
+def writeCogLayersFull (a : LArgs) : Trace :=
+  match a.layers with
+  | [] => ([], .ok .none)
+  | first :: _ =>
+    let guard : List Ev × Bool := match a.dst with
+      | .mem => ([], false)
+      | .path p ex => if ex then (if a.overwrite then ([.unlink p], false) else ([], true)) else ([], false)
+    if guard.2 then ([], .error .osError) else
+    let b := a.blocksize.getD 512
+    let ob := a.ovrBlocksize.getD b
+    match first.g with
+    | none => (guard.1, .error .attributeError)
+    | some g =>
+      let rio := (defaultCogOpts b g.x g.y first.isFloat [("nodata", first.attrsNodata)]).update (layersExtra true a.extra)
+      let cfg := firstPassCfg b rio a.windowed a.icomp
+      let names := memfilesOvr a.uuid a.layers.length
+      match layerLoopFull cfg (a.layers.zip names) with
+      | (evs, .error e) => (guard.1 ++ evs, .error e)
+      | (evs, .ok _) =>
+        let env : Dict := [("GDAL_TIFF_OVR_BLOCKSIZE", .int ob), ("GDAL_DISABLE_READDIR_ON_OPEN", .bool false),
+          ("NUM_THREADS", .str "ALL_CPUS"), ("GDAL_NUM_THREADS", .str "ALL_CPUS")]
+        let src := Loc.named (names.headD "")
+        match a.dst with
+        | .mem => (guard.1 ++ evs ++ [.envEnter env, .copy src (.anon 0) (("copy_src_overviews", V.bool true) :: rio), .envExit], .ok (.bytesOf (.anon 0)))
+        | .path p _ => (guard.1 ++ evs ++ [.envEnter env, .copy src (.named p) (("copy_src_overviews", V.bool true) :: rio), .envExit], .ok (.path p))
 
 /-! ### `write_cog`, `to_cog` -/
 
